@@ -10,7 +10,12 @@ import solver
 import solverchecks as sc
 from minplascalc import units as u
 
-SHARP, LOOSE = 1e-8, 1e-4       # |mass-action defect| / kT for x > 1e-5, and for 1e-7 < x <= 1e-5 (property text)
+def defect_limit(x):
+    """|mass-action defect| / kT allowed for a species of mole fraction x (property text): sharp above 1e-5, looser down to 1e-7,
+    nothing demanded below.  By the Newton residual identity (theorem) the defect of a species at exit IS its own last relative
+    Newton change, which the stopping rule bounds by rtol = 1e-10 for every species above 1e-7 of the most abundant one;
+    observed on the unchanged tree: <= 2e-10 and <= 3e-9."""
+    return None if x <= 1e-7 else (1e-8 if x > 1e-5 else 1e-6)
 
 
 def mass_action_defect(m, nd):
@@ -44,7 +49,7 @@ def judge(m, nd):
         return None
     worst = None
     for di, xi, sp in zip(d, x, m.species):
-        lim = SHARP if xi > 1e-5 else (LOOSE if xi > 1e-7 else None)
+        lim = defect_limit(xi)
         if lim is not None and abs(di) > lim:
             if worst is None or abs(di) / lim > worst[0]:
                 worst = (abs(di) / lim, sp.name, float(di), float(xi))
@@ -57,7 +62,7 @@ def check(run):
     n = 1200 if thorough else 150
     run.cov["rule"] = ("same mixture generator as C02; for every un-warned run the chemical potentials are evaluated by the extracted model kernels "
                        "at the returned densities and projected (mole-fraction weighted least squares) on the span of the element and charge columns; "
-                       "judged at 1e-8 (x > 1e-5) and 1e-4 (1e-7 < x <= 1e-5) in mu/kT; distinct = (species names in order, T, P)")
+                       "judged at 1e-8 (x > 1e-5) and 1e-6 (1e-7 < x <= 1e-5) in mu/kT; distinct = (species names in order, T, P)")
     run.cov["trusted_base"] = common.TRUSTED_COMMON + [
         "hand-written step / reference-energy models tied to calculate_composition by recorded iterations",
         "NOT proved: that the floating-point iteration reaches the fixed point (the stopping rule inspects only the most abundant species); "
